@@ -317,6 +317,46 @@ fn main() {
         t
     });
 
+    // S6: sparse tails: head | deciding digit | zeros with one non-zero digit at every position
+    let tail_lens: Vec<usize> = if tier.is_thorough() { (0..=72).chain([100, 127, 128, 129, 256]).collect() } else { (0..=40).chain([63, 64, 65]).collect() };
+    let tails = sparse_tails(&tail_lens);
+    run.bound("S6_tail_lengths", json!(tail_lens));
+    run.par("S6 sparse tails (one non-zero digit at every position)", tails.len(), |i| {
+        let mut t = Tally::default();
+        for head in ["1", "2", "19", "99"] {
+            for d0 in ['0', '5', '4', '9'] {
+                let digits = format!("{}{}{}", head, d0, tails[i]);
+                let dropped = 1 + tails[i].len() as i64;
+                for sign in [1, -1] {
+                    for s in [0i128, dropped as i128, 3] {
+                        let x = Dec { n: big(&digits) * sign, s };
+                        let xb = bd(&x);
+                        t.states += 1;
+                        // round at the position right after the head, and one digit to either side
+                        for k in [dropped, dropped + 1, dropped - 1] {
+                            if k < 1 {
+                                continue;
+                            }
+                            let target = x.s as i64 - k;
+                            for m in MODES {
+                                t.transitions += 1;
+                                t.nontrivial += 1;
+                                if let Some(v) = check(Op::WithScaleRound, &xb, &x, target, m) {
+                                    run.report(v);
+                                }
+                            }
+                            t.transitions += 1;
+                            if let Some(v) = check(Op::Round, &xb, &x, target, default_mode) {
+                                run.report(v);
+                            }
+                        }
+                    }
+                }
+            }
+        }
+        t
+    });
+
     // S5: zero at any scale stays zero with the requested scale
     run.seq("S5 zeros", || {
         let mut t = Tally::default();
